@@ -45,6 +45,9 @@ RNG_CARRIERS = ("as_mut", "unwrap", "expect", "ok_or", "as_deref_mut", "map", "t
                 "as_mut_ptr", "branch", "from_residual", "borrow_mut", "deref_mut", "unwrap_or_else")
 
 
+PER_ELEMENT_ADAPTORS = ("map", "for_each", "try_for_each", "filter_map", "flat_map", "try_fold", "fold", "scan", "map_while")
+
+
 def anchors(f):
     out = []
     S = T.SCHEMES
@@ -235,7 +238,7 @@ def run(rep, ctx, tier):
             if sizes:
                 if secret is None:
                     src = ("FIELD", LP, "polynomial")
-                    secret = {s_[0] for s_ in g.reach([src], kinds=(DATA, ALIAS), typed=False)} if src in g.fwd else set()
+                    secret = {s_[0] for s_ in g.reach([src], kinds=(DATA, ALIAS))} if src in g.fwd else set()
                 leak = [l for l in sizes if (bid, l) in secret]
                 rep.add("R6h", "%s:mask-size-independent@%s#%d" % (key, short(bid), k), not leak,
                         ("the size operand(s) of the draw at %s do not depend on the polynomial being hidden" % t["span"]) if not leak else
@@ -294,6 +297,16 @@ def run(rep, ctx, tier):
                         continue
                     in_loop = any(ci in RNG.cyclic_blocks(f.bodies[cb]) for cb in g.scope for ci, ct in f.bodies[cb].calls()
                                   if bid in f.call_targets(ct, adt))
+                    if bb.kind == "Closure" and not in_loop:
+                        # the body of `iter.map(|..| ..)` / `for_each`: the adaptor runs it once per element
+                        for cb in g.scope:
+                            pb = f.bodies[cb]
+                            made = {st["dst"]["l"] for blk in pb.blocks for st in blk["stmts"]
+                                    if st["rv"].get("k") == "agg" and st["rv"].get("closure") == bid and not st["dst"]["p"]}
+                            if made and any((ct.get("callee") or "").rsplit("::", 1)[-1] in PER_ELEMENT_ADAPTORS and
+                                            any(a["k"] in ("copy", "move") and a["pl"]["l"] in made for a in ct["args"][1:])
+                                            for _, ct in pb.calls()):
+                                in_loop = True
                     if in_loop:
                         for i, rv in lits:
                             per_item.append((bid, i, set(range(len(bb.blocks))),
